@@ -411,6 +411,7 @@ def _stores(fn) -> list[ast.AST]:
 def inline_hoisted(cur, ref_locals: set[str], mutable_attrs: set[str]) -> list[str]:
     """inline single-assignment locals (absent from the reference) bound to a pure chain"""
     done = []
+    params = {a.arg for n in ast.walk(cur) if isinstance(n, (ast.FunctionDef, ast.AsyncFunctionDef, ast.Lambda)) for a in ast.walk(n.args) if isinstance(a, ast.arg)}
     while True:
         cand = None
         assigns: dict[str, list] = {}
@@ -429,6 +430,10 @@ def inline_hoisted(cur, ref_locals: set[str], mutable_attrs: set[str]) -> list[s
                 continue
             name = st.targets[0].id
             if name in ref_locals or len(assigns.get(name, [])) != 1:
+                continue
+            # a parameter is bound at entry as well; and the one assignment must come before every use, in the same
+            # block (an assignment under a condition does not reach the uses behind it on every path)
+            if name in params or not _dominates_uses(cur, st, name):
                 continue
             root = _pure_chain(st.value, mutable_attrs)
             if root is None:
@@ -449,6 +454,18 @@ def inline_hoisted(cur, ref_locals: set[str], mutable_attrs: set[str]) -> list[s
         _remove_stmt(cur, st)
         _Subst(name, st.value).visit(cur)
         done.append(name)
+
+
+def _dominates_uses(fn, st, name) -> bool:
+    """every read of `name` in fn lies in a statement that follows `st` in st's own block"""
+    for n in ast.walk(fn):
+        for fld in ("body", "orelse", "finalbody"):
+            lst = getattr(n, fld, None)
+            if isinstance(lst, list) and any(x is st for x in lst):
+                k = next(i for i, x in enumerate(lst) if x is st)
+                later = {id(y) for x in lst[k + 1:] for y in ast.walk(x)}
+                return all(id(u) in later for u in ast.walk(fn) if isinstance(u, ast.Name) and u.id == name and isinstance(u.ctx, ast.Load))
+    return False
 
 
 class _Subst(ast.NodeTransformer):
